@@ -445,6 +445,10 @@ structure FCfg where
   checkBlock : Bool
   /-- `compile` binds a compiled object that is not a variable to a fresh name (otherwise the text lacks it: D7) -/
   bindResult : Bool := false
+  /-- the words `names()` refuses because `keyword.iskeyword` says so (empty when the source has no such filter) -/
+  nameKeywords : List String := []
+  /-- `names()` refuses every name that some variable carries as a name hint (`np`, `op`, `const1`, …) -/
+  skipReserved : Bool := false
 deriving Repr, DecidableEq, Inhabited
 
 def dedupeNat (l : List Nat) : List Nat := l.foldl (fun acc x => if acc.contains x then acc else acc ++ [x]) []
@@ -487,16 +491,29 @@ def fuseAll (fc : FCfg) (st : GState) (nblocks : Nat) : List Nat :=
 
 /-! ### 4. Names -/
 
+/-- `next(names)`: the generator `names()` yields `a, b, …, z, aa, ab, …` (`nameAt`) and skips the refused words; the state is
+the index of the next candidate.  At most `bad.length` candidates in a row can be refused, hence the fuel. -/
+def nextName (bad : List String) : Nat → Nat → Option (String × Nat)
+  | 0, _ => none
+  | fuel + 1, i => if bad.contains (nameAt i) then nextName bad fuel (i + 1) else some (nameAt i, i + 1)
+
 /-- Group names in the order of the groups' first variables: the single name hint of the group if there
 is exactly one, else the next generated name. -/
-def assignNames (grp : List Nat) (hints : List (Nat × String)) : List (Nat × String) :=
+def assignNames (grp : List Nat) (hints : List (Nat × String)) (bad : List String := []) : List (Nat × String) :=
   let reps := dedupeNat grp
   (reps.foldl (fun (acc : List (Nat × String) × Nat) r =>
     let members := (grp.zipIdx).filterMap (fun (gid, v) => if gid == r then some v else none)
     let hs := hints.filterMap (fun (v, h) => if members.contains v then some h else none)
     match hs with
     | [h] => (acc.1 ++ [(r, h)], acc.2)
-    | _ => (acc.1 ++ [(r, nameAt acc.2)], acc.2 + 1)) ([], 0)).1
+    | _ =>
+      match nextName bad (bad.length + 1) acc.2 with
+      | some (nm, i) => (acc.1 ++ [(r, nm)], i)
+      | none => (acc.1 ++ [(r, "?")], acc.2)) ([], 0)).1
+
+/-- The names `names()` refuses: Python keywords and (if the source filters them) all hinted names. -/
+def badNames (fc : FCfg) (hints : List (Nat × String)) : List String :=
+  fc.nameKeywords ++ (if fc.skipReserved then hints.map (·.2) else [])
 
 def nameOf (grp : List Nat) (names : List (Nat × String)) (v : Nat) : String :=
   match grp[v]? with
@@ -561,7 +578,7 @@ def compile (cfg : UCfg) (fc : FCfg) (g : Graph) : Except String Compiled := do
       else (st, obj)
   let nblocks := scopes.scopes.length
   let grp := fuseAll fc st nblocks
-  let names := assignNames grp st.hints
+  let names := assignNames grp st.hints (badNames fc st.hints)
   let nm := nameOf grp names
   -- a `def` whose body block is the block it is defined in (the graph output does not depend on the graph inputs)
   -- makes `Block.to_code` recurse forever
